@@ -46,7 +46,10 @@ struct xelem {
     uint64_t pad;
     struct cstl_hash_node hn;
     uint64_t tail;
+    struct cstl_hash_node hn2;  /* second node member: a table may be declared over either one; swap exchanges offsets */
+    int nk;                     /* which member this element is (or would be) linked through */
 };
+#define XN(e) ((e)->nk ? &(e)->hn2 : &(e)->hn)
 
 /* hash function identities */
 enum { F_NULL = 0, F_DIV, F_MUL, F_ZERO, F_HALF, F_TAB, NFN };
@@ -63,6 +66,7 @@ struct mtab {
     int settled;                /* last probe saw exactly one consultation */
     int builtin;                /* the table runs on the library's built-in function: no call counts */
     int since_clear;
+    int kind;                   /* node member the table object is declared over (moves with swap) */
     uint64_t budget;            /* C19: keyed ops allowed until the rehash must have finished */
     uint64_t keyed;             /* keyed ops since the last resize call */
 };
@@ -268,8 +272,8 @@ static void check_offers(int t, size_t key, const char *prop)
     for (i = 0; i < n; i++) {
         if (is_live_in(t, offered[i]) < 0)
             VIOLP(prop, "find_offers_dead", "find offered an element that is not live in table %d", t);
-        if (offered[i]->hn.key != key)
-            VIOLP(prop, "find_offers_wrong_key", "find offered an element with key %zu for probe %zu", offered[i]->hn.key, key);
+        if (XN(offered[i])->key != key)
+            VIOLP(prop, "find_offers_wrong_key", "find offered an element with key %zu for probe %zu", XN(offered[i])->key, key);
         for (j = 0; j < i; j++) if (offered[j] == offered[i])
             VIOLP(prop, "find_offers_twice", "find offered the same element twice in one call");
     }
@@ -278,7 +282,7 @@ static void check_offers(int t, size_t key, const char *prop)
 static int count_key(int t, size_t key)
 {
     int i, n = 0;
-    for (i = 0; i < mt[t].nlive; i++) if (mt[t].live[i]->hn.key == key) n++;
+    for (i = 0; i < mt[t].nlive; i++) if (XN(mt[t].live[i])->key == key) n++;
     return n;
 }
 
@@ -411,11 +415,11 @@ static void audit_table(int t, int full)
         for (i = 0; i < m->nlive; i++) {
             struct xelem *e = m->live[i];
             accept_exact = e; accept_at = 0; noffered = 0;
-            TRY(r = cstl_hash_find(&tb[t], e->hn.key, find_visit, NULL));
+            TRY(r = cstl_hash_find(&tb[t], XN(e)->key, find_visit, NULL));
             if (g_aborted) { accept_exact = NULL; VIOLP(P, "abort", "a lookup aborted"); }
-            if (r != e) { accept_exact = NULL; snapshot_restore(0); VIOLP(P, "lost_element", "live element %d (key %zu) of table %d is not found by its key", e->id, e->hn.key, t); }
+            if (r != e) { accept_exact = NULL; snapshot_restore(0); VIOLP(P, "lost_element", "live element %d (key %zu) of table %d is not found by its key", e->id, XN(e)->key, t); }
             accept_exact = NULL;
-            check_offers(t, e->hn.key, P);
+            check_offers(t, XN(e)->key, P);
         }
         /* a few keys nobody holds */
         for (i = 0; i < 3; i++) {
@@ -433,7 +437,7 @@ static void audit_table(int t, int full)
     ncalls = saved;
 
     /* abstract state: multiset of keys, requested geometry, pending? */
-    for (i = 0; i < m->nlive; i++) sh += fnv1a(0x31, m->live[i]->hn.key);
+    for (i = 0; i < m->nlive; i++) sh += fnv1a(0x31, XN(m->live[i])->key);
     sh = fnv1a(sh, m->req.n); sh = fnv1a(sh, (uint64_t)m->req.fn); sh = fnv1a(sh, (uint64_t)m->settled);
     sh = fnv1a(sh, m->keyed < 64 ? m->keyed : 64);
     state_note(sh);
@@ -451,7 +455,7 @@ static unsigned max_chain(int t, struct geom g)
     if (g.n > 4096) return (unsigned)m->nlive;      /* conservative */
     memset(cnt, 0, sizeof(cnt[0]) * g.n);
     for (i = 0; i < m->nlive; i++) {
-        size_t b = pure_hash(g.fn, m->live[i]->hn.key, g.n);
+        size_t b = pure_hash(g.fn, XN(m->live[i])->key, g.n);
         if (++cnt[b] > mx) mx = cnt[b];
     }
     return mx;
@@ -527,7 +531,7 @@ static struct xelem *new_elem(void)
 {
     struct xelem *e = simheap_alloc(sizeof *e, TAG_ELEM);
     e->magic = EMAGIC; e->tail = ~EMAGIC; e->id = next_id++; e->table = -1;
-    e->hn.key = 0xdeadbeef; e->hn.next = (void *)(uintptr_t)0x5151515151515151ull;
+    e->nk = 0; e->hn.key = 0xdeadbeef; e->hn.next = (void *)(uintptr_t)0x5151515151515151ull; e->hn2 = e->hn;
     return e;
 }
 
@@ -569,16 +573,17 @@ static void x_once(const plan_t *p)
     ntab = (int)p->cfg[CF_NT]; if (ntab < 1) ntab = 1; if (ntab > NTAB) ntab = NTAB;
     keys = (int)p->cfg[CF_KEYS]; if (keys < 1) keys = 1;
     maxe = (int)p->cfg[CF_MAXE]; if (maxe < 1) maxe = 4; if (maxe > MAXE - 4) maxe = MAXE - 4;
-    spread = (int)p->cfg[CF_SPREAD];
+    spread = (int)(p->cfg[CF_SPREAD] & 1);
     audit_pm = (unsigned)p->cfg[CF_AUDIT_PM]; if (audit_pm == 0) audit_pm = 1000;
     tabseed = p->cfg[CF_TABSEED];
     prng_seed(&aprng, p->cfg[CF_TABSEED] ^ 0xa0d17);
     next_id = 0; nlimbo = 0; maxreach = 0; ncalls = 0; bad_at = 0; bad_returned = 0; m0_seen = 0;
     memset(tb, (int)(unsigned char)p->cfg[CF_JUNK], sizeof tb);      /* init on junk memory, as on a stack */
     for (t = 0; t < NTAB; t++) {
-        cstl_hash_init(&tb[t], offsetof(struct xelem, hn));
         memset(&mt[t], 0, sizeof mt[t]);
         mt[t].since_clear = -1;
+        mt[t].kind = (int)(p->cfg[CF_SPREAD] >> (4 + t) & 1);
+        cstl_hash_init(&tb[t], mt[t].kind ? offsetof(struct xelem, hn2) : offsetof(struct xelem, hn));
     }
 
     for (k = 0; k < p->nops; k++) {
@@ -693,12 +698,13 @@ static void x_once(const plan_t *p)
             size_t key = spread ? (size_t)(o->a[1] * 0x9e3779b97f4a7c15ull >> 16) : (size_t)(o->a[1] % (uint64_t)keys);
             if (m->nlive >= maxe) goto do_erase;
             e = new_elem();
+            e->nk = m->kind;
             TRY(cstl_hash_insert(&tb[t], key, e));
             c = ncalls;
             if (c17_after(t, "insert")) return;
             if (g_aborted) VIOL(g_aborted == 2 ? "assert" : "abort", "insert aborted");
             check_m0(t);
-            if (e->hn.key != key) VIOL("insert_key", "insert did not record the key in the node");
+            if (XN(e)->key != key) VIOL("insert_key", "insert did not record the key in the node");
             e->table = t; m->live[m->nlive++] = e;
             if (!was_settled) PROBE("insert_mid_rehash");
             EVT("insert", t, e->id, key);
@@ -708,7 +714,7 @@ static void x_once(const plan_t *p)
         case O_FIND: {
             size_t key = spread ? (size_t)(o->a[1] * 0x9e3779b97f4a7c15ull >> 16) : (size_t)(o->a[1] % (uint64_t)keys);
             int vmode = (int)(o->a[2] % 3), nk, idx;
-            if ((o->a[3] & 1) && m->nlive > 0) key = m->live[(o->a[3] >> 1) % (uint64_t)m->nlive]->hn.key;
+            if ((o->a[3] & 1) && m->nlive > 0) key = XN(m->live[(o->a[3] >> 1) % (uint64_t)m->nlive])->key;
             nk = count_key(t, key);
             noffered = 0; accept_exact = NULL;
             accept_at = vmode == 1 ? 1 + (int)((o->a[3] >> 20) % 4) : 0;
@@ -724,7 +730,7 @@ static void x_once(const plan_t *p)
                     idx = is_live_in(t, ret);
                     if (ret == NULL) VIOL("lost_element", "find returned NULL for key %zu held by %d live elements", key, nk);
                     if (idx < 0) VIOL("find_foreign", "find returned a pointer that is not a live element");
-                    if (((struct xelem *)ret)->hn.key != key) VIOL("find_wrong_key", "find returned an element with another key");
+                    if (XN((struct xelem *)ret)->key != key) VIOL("find_wrong_key", "find returned an element with another key");
                 }
             } else {
                 check_offers(t, key, g_cur_prop);
@@ -765,8 +771,8 @@ static void x_once(const plan_t *p)
             if (nlimbo > 0 && (o->a[2] & 1)) { e = limbo[o->a[3] % (uint64_t)nlimbo]; PROBE("erase_previously_erased"); }
             else {
                 e = new_elem();
-                e->hn.key = spread ? (size_t)(o->a[1] * 0x9e3779b97f4a7c15ull >> 16) : (size_t)(o->a[1] % (uint64_t)keys);
-                e->hn.next = NULL;
+                XN(e)->key = spread ? (size_t)(o->a[1] * 0x9e3779b97f4a7c15ull >> 16) : (size_t)(o->a[1] % (uint64_t)keys);
+                XN(e)->next = NULL;
                 limbo_add(e);
                 PROBE("erase_never_inserted");
             }
@@ -806,7 +812,7 @@ static void x_once(const plan_t *p)
             tmp = mt[t]; mt[t] = mt[u]; mt[u] = tmp;
             for (i = 0; i < mt[t].nlive; i++) mt[t].live[i]->table = t;
             for (i = 0; i < mt[u].nlive; i++) mt[u].live[i]->table = u;
-            PROBE("swap");
+            PROBE("swap"); if (mt[t].kind != mt[u].kind) PROBE("swap_different_offsets");
             EVT("swap", t, u, 0);
             g_cur_prop = prop_of(u, kind); g_cur_ctx = ctx_of(u);
             audit_table(u, 1);
@@ -975,7 +981,7 @@ static void x_gen(prng_t *r, int mode, plan_t *p)
     p->cfg[CF_KEYS] = small ? 1 + prng_below(r, 4) : 2 + prng_below(r, 39);
     p->cfg[CF_JUNK] = 1 + prng_below(r, 254);
     p->cfg[CF_MAXE] = longrun ? 200 + prng_below(r, 1800) : small ? 2 + prng_below(r, 4) : 4 + prng_below(r, 44);
-    p->cfg[CF_SPREAD] = (mode == 19) ? 1 : prng_chance(r, 1, 3);
+    p->cfg[CF_SPREAD] = ((mode == 19) ? 1 : prng_chance(r, 1, 3)) | (prng_chance(r, 1, 3) ? prng_below(r, 4) << 4 : 0);
     p->cfg[CF_AUDIT_PM] = longrun ? 30 : 1000;
     p->cfg[CF_RPOLICY] = prng_below(r, 3);
     p->cfg[CF_TABSEED] = prng_next(r);
